@@ -237,6 +237,7 @@ type vec8 struct {
 	Text   []int `json:"text"`
 	Path   []int `json:"path"` // child indexes (1-based) from the root statement to the statement under test
 	Expect []int `json:"expect"`
+	Before []int `json:"before"` // optional: a module parsed first, with the string and argument interners the text under test then shares
 }
 
 func handle8(id int, raw json.RawMessage) result {
@@ -244,7 +245,23 @@ func handle8(id int, raw json.RawMessage) result {
 	if err := json.Unmarshal(raw, &v); err != nil {
 		return result{R: json.RawMessage(`{"ret":"bad-vector"}`)}
 	}
-	o := Guarded(FromCPs(v.Text), limits, false)
+	var o Outcome
+	if len(v.Before) > 0 {
+		// as compile.ParseModules does: several files, one pair of interners
+		si, ai := parse.NewStringInterner(), parse.NewArgInterner()
+		first := GuardedWith(FromCPs(v.Before), limits, false, func(name, text string) (*parse.Tree, error) {
+			return parse.ParseWithInterners("before.yang", text, nil, si, ai)
+		})
+		if first.Ret != "ok" {
+			b, _ := json.Marshal(map[string]interface{}{"ret": "before-" + first.Ret, "err": clip(first.Err + first.PanicVal)})
+			return result{R: b, Stop: stopFor(&first)}
+		}
+		o = GuardedWith(FromCPs(v.Text), limits, false, func(name, text string) (*parse.Tree, error) {
+			return parse.ParseWithInterners(name, text, nil, si, ai)
+		})
+	} else {
+		o = Guarded(FromCPs(v.Text), limits, false)
+	}
 	r := map[string]interface{}{"ret": o.Ret, "err": clip(o.Err + o.PanicVal), "leak": o.Leak}
 	if o.Ret == "ok" && o.Root {
 		n := o.Tree.Root
